@@ -31,6 +31,9 @@ def report(chk, name, out, classes):
         chk.violation('models_trace_rejected', f'Trace_Models rejected event {k}: {evs[k] if k < len(evs) else None}', evs[k] if k < len(evs) else None)
         return
     for b in out['result']['bad']:
+        if b['cls'].startswith('extra_'):
+            chk.beyond(f"{b['key']} ({b['num']}): GetType / printed / serialised form of the model is not composed of its type label and its parameters' own forms: {str(b['detail'])[:200]}")
+            continue
         if b['cls'] in classes:
             chk.violation(f"{b['cls']}:{b['key']}:{b['num']}", f"{b['cls']} {b['key']} num={b['num']} {b['detail']}", b)
 
